@@ -29,6 +29,7 @@ VALUE_ONLY = ["PrefixMap::remove_keep_tree", "PrefixMap::get_mut", "PrefixMap::g
               "<CoveringDifferenceMut as Iterator>::next"]
 ASSUMES = ["C17 prefix algebra (relation oracle, side rules S1-S3)", "pre-state is a well-formed trie", "pt/models.py std model"]
 LEVEL_TEXT = __doc__
+DEEPER = False     # thorough tier: more configurations and the mutant corpus, same unrolling (path count grows too fast)
 
 
 def declare(rep):
